@@ -1,1 +1,151 @@
-//! C12 — texture samplers (placeholder, filled in below)
+//! C12 — texture samplers address the right texel and never go out of bounds.
+//! Texel (x, y) stores (x, y), so the value read *is* the address used.
+use crate::util::*;
+use re::render::tex::*;
+use re::util::buf::*;
+
+type Tx = (u32, u32);
+
+fn pot_dim() -> u32 {
+    let k: u32 = kani::any();
+    kani::assume(k <= 3);
+    1 << k
+}
+
+fn floor_i64(u: f32) -> i64 {
+    (u as f64).floor() as i64
+}
+
+/// Repeat sampler, owned texture, dims symbolic in {1,2,4,8}^2, every pair of
+/// f32 bit patterns: no panic; for |u|,|v| < 2^31 the texel is floor(u) mod w.
+#[kani::proof]
+#[kani::unwind(66)]
+fn c12_repeat_abs() {
+    let (w, h) = (pot_dim(), pot_dim());
+    let tex = Texture::from(Buf2::new_with((w, h), |x, y| (x, y)));
+    let s = SamplerRepeatPot::new(&tex);
+    let u: f32 = kani::any();
+    let v: f32 = kani::any();
+    let (x, y): Tx = s.sample_abs(&tex, uv(u, v));
+    assert!(x < w && y < h);
+    if u.abs() < TWO31 {
+        assert!(x as i64 == floor_i64(u).rem_euclid(w as i64));
+    }
+    if v.abs() < TWO31 {
+        assert!(y as i64 == floor_i64(v).rem_euclid(h as i64));
+    }
+    kani::cover!(u < 0.0 && (u as i32) as f32 == u && w > 1, "negative integer u");
+    kani::cover!(u.is_nan() || v.is_infinite(), "nan / inf");
+    kani::cover!(u > 1e6 && u < 2e9, "large u");
+    kani::cover!(w == 8 && h == 1, "8x1");
+}
+
+/// Relative entry point == absolute at (w*u, h*v), repeat sampler.
+#[kani::proof]
+#[kani::unwind(18)]
+fn c12_repeat_rel() {
+    let (w, h) = (4u32, 4u32);
+    let tex = Texture::from(Buf2::new_with((w, h), |x, y| (x, y)));
+    let s = SamplerRepeatPot::new(&tex);
+    let u: f32 = kani::any();
+    let v: f32 = kani::any();
+    let a: Tx = s.sample(&tex, uv(u, v));
+    let b: Tx = s.sample_abs(&tex, uv(tex.width() * u, tex.height() * v));
+    assert!(a == b);
+    assert!(tex.width() == 4.0 && tex.height() == 4.0);
+    kani::cover!(u < -0.3 && u > -0.4, "negative fraction");
+}
+
+/// Repeat sampler on a borrowed sub-rectangle of a larger (8x4) buffer at a
+/// symbolic offset: addresses are relative to the sub-rectangle.
+#[kani::proof]
+#[kani::unwind(34)]
+fn c12_repeat_borrowed() {
+    let big = Buf2::new_with((8, 4), |x, y| (x, y));
+    let (w, h) = (pot_dim(), pot_dim());
+    let l: u32 = kani::any();
+    let t: u32 = kani::any();
+    kani::assume(w <= 4 && h <= 2 && l <= 8 - w && t <= 4 - h);
+    let tex = Texture::from(big.slice((l..l + w, t..t + h)));
+    let s = SamplerRepeatPot::new(&tex);
+    let u: f32 = kani::any();
+    let v: f32 = kani::any();
+    let (x, y): Tx = s.sample_abs(&tex, uv(u, v));
+    assert!(x >= l && x < l + w && y >= t && y < t + h);
+    if u.abs() < TWO31 && v.abs() < TWO31 {
+        assert!((x - l) as i64 == floor_i64(u).rem_euclid(w as i64));
+        assert!((y - t) as i64 == floor_i64(v).rem_euclid(h as i64));
+    }
+    kani::cover!(l > 0 && t > 0 && w == 4 && h == 2, "offset 4x2");
+}
+
+/// Clamp sampler: arbitrary dims in [1,5]^2, every f32 pair incl. NaN/inf:
+/// no panic, texel = floor(clamp(u, 0, w-1)).
+#[cfg(not(feature = "cfg-bare"))]
+#[kani::proof]
+#[kani::unwind(27)]
+fn c12_clamp_abs() {
+    let w: u32 = kani::any();
+    let h: u32 = kani::any();
+    kani::assume(w >= 1 && w <= 5 && h >= 1 && h <= 5);
+    let tex = Texture::from(Buf2::new_with((w, h), |x, y| (x, y)));
+    let u: f32 = kani::any();
+    let v: f32 = kani::any();
+    let (x, y): Tx = SamplerClamp.sample_abs(&tex, uv(u, v));
+    let want = |c: f32, n: u32| -> u32 {
+        if c.is_nan() { return u32::MAX; }
+        let f = floor_i64(c);
+        if f < 0 { 0 } else if f > (n - 1) as i64 { n - 1 } else { f as u32 }
+    };
+    assert!(x < w && y < h);
+    if !u.is_nan() { assert!(x == want(u, w)); }
+    if !v.is_nan() { assert!(y == want(v, h)); }
+    // relative entry point
+    let r: Tx = SamplerClamp.sample(&tex, uv(u, v));
+    let a: Tx = SamplerClamp.sample_abs(&tex, uv(u * tex.width(), v * tex.height()));
+    assert!(r == a);
+    kani::cover!(u < 0.0, "negative");
+    kani::cover!(u > 10.0, "beyond");
+    kani::cover!(u.is_nan(), "nan");
+    kani::cover!(w == 5 && h == 3 && x == 4 && y == 2, "5x3 corner");
+}
+
+/// SamplerOnce agrees with repeat (and clamp) for in-range coordinates; its
+/// relative entry point is the absolute one scaled.
+#[kani::proof]
+#[kani::unwind(18)]
+fn c12_once_agrees() {
+    let (w, h) = (pot_dim(), pot_dim());
+    kani::assume(w <= 4 && h <= 4);
+    let tex = Texture::from(Buf2::new_with((w, h), |x, y| (x, y)));
+    let u: f32 = kani::any();
+    let v: f32 = kani::any();
+    kani::assume(u >= 0.0 && u < w as f32 && v >= 0.0 && v < h as f32);
+    let o: Tx = SamplerOnce.sample_abs(&tex, uv(u, v));
+    let r: Tx = SamplerRepeatPot::new(&tex).sample_abs(&tex, uv(u, v));
+    assert!(o == r);
+    assert!(o.0 as i64 == floor_i64(u) && o.1 as i64 == floor_i64(v));
+    #[cfg(not(feature = "cfg-bare"))]
+    {
+        let c: Tx = SamplerClamp.sample_abs(&tex, uv(u, v));
+        assert!(o == c);
+    }
+    kani::cover!(w == 4 && u > 3.5, "last texel");
+}
+
+/// SamplerOnce relative entry point == absolute at (w*u, h*v) whenever the
+/// scaled coordinate is in range.
+#[kani::proof]
+#[kani::unwind(18)]
+fn c12_once_rel() {
+    let (w, h) = (4u32, 2u32);
+    let tex = Texture::from(Buf2::new_with((w, h), |x, y| (x, y)));
+    let u: f32 = kani::any();
+    let v: f32 = kani::any();
+    let (su, sv) = (tex.width() * u, tex.height() * v);
+    kani::assume(su >= 0.0 && su < 4.0 && sv >= 0.0 && sv < 2.0);
+    let a: Tx = SamplerOnce.sample(&tex, uv(u, v));
+    let b: Tx = SamplerOnce.sample_abs(&tex, uv(su, sv));
+    assert!(a == b);
+    kani::cover!(a == (3, 1), "corner");
+}
